@@ -35,6 +35,7 @@ import (
 	"fmt"
 	"io/ioutil"
 	"path/filepath"
+	"strings"
 
 	"github.com/pborman/uuid"
 	"gitlab.com/aquachain/aquachain/common"
@@ -179,6 +180,7 @@ func DecryptKey(keyjson []byte, auth string) (*Key, error) {
 	// Depending on the version try to parse one way or another
 	var (
 		keyBytes, keyId []byte
+		fileAddress     string
 		err             error
 	)
 	if version, ok := m["version"].(string); ok && version == "1" {
@@ -186,12 +188,14 @@ func DecryptKey(keyjson []byte, auth string) (*Key, error) {
 		if err := json.Unmarshal(keyjson, k); err != nil {
 			return nil, err
 		}
+		fileAddress = k.Address
 		keyBytes, keyId, err = decryptKeyV1(k, auth)
 	} else {
 		k := new(encryptedKeyJSONV3)
 		if err := json.Unmarshal(keyjson, k); err != nil {
 			return nil, err
 		}
+		fileAddress = k.Address
 		keyBytes, keyId, err = decryptKeyV3(k, auth)
 	}
 	// Handle any decryption errors and return the key
@@ -199,10 +203,18 @@ func DecryptKey(keyjson []byte, auth string) (*Key, error) {
 		return nil, err
 	}
 	key := crypto.ToECDSAUnsafe(keyBytes)
+	address := crypto.PubkeyToAddress(key.PubKey())
+	// The MAC covers the ciphertext but not the IV, so a damaged IV decrypts to
+	// some other key without any error. If the file states which account it
+	// belongs to, never hand out a key for a different one.
+	if fileAddress != "" && !strings.EqualFold(strings.TrimPrefix(strings.TrimPrefix(fileAddress, "0x"), "0X"), hex.EncodeToString(address[:])) {
+		zeroKey(key)
+		return nil, fmt.Errorf("decrypted key is for account %x, but the key file says %s (damaged cipher parameters?)", address, fileAddress)
+	}
 
 	return &Key{
 		Id:         uuid.UUID(keyId),
-		Address:    crypto.PubkeyToAddress(key.PubKey()),
+		Address:    address,
 		PrivateKey: key,
 	}, nil
 }
